@@ -223,6 +223,10 @@ class C13(Property):
                 if mc is None or mc[0] != "RDOC" or len(mc) < 4 or (mc[3] != "NOTUTF8" and mc[3] != ic[3]):
                     out.append(Finding("disagree", c, "console text of an explicit document differs: model %r vs implementation %r"
                                        % ((mc[3][:80] if mc and len(mc) > 3 else mc), ic[3][:80])))
+                    if mc is not None and len(mc) >= 4 and mc[3] not in ("NOTUTF8", "PANIC") and ic[3] != "PANIC":
+                        v = self.needlessly_wide(gen.unhx(mc[3]), gen.unhx(ic[3]), 100)
+                        if v:
+                            out.append(Finding("violation", c, v))
                 continue
             if not ic or ic[0] != "RENDER":
                 dist["not_a_doc"] += 1
@@ -249,6 +253,10 @@ class C13(Property):
                     if want != got:
                         out.append(Finding("disagree", c, "console text at width %s differs: model %r vs implementation %r"
                                            % (w, (want or b"PANIC")[:120], (got or b"")[:120])))
+                        if want is not None and got is not None and 40 <= int(w) < 60000:
+                            v = self.needlessly_wide(want, got, int(w))
+                            if v:
+                                out.append(Finding("violation", c, v))
                         break
                 if mm and mm[0] == "RENDER":
                     h = mm[1].split(":")[1]
@@ -310,6 +318,21 @@ class C13(Property):
         while i < min(len(a), len(b)) and a[i] == b[i]:
             i += 1
         return (a[max(0, i - 15):i + 15], b[max(0, i - 15):i + 15])
+
+    @staticmethod
+    def needlessly_wide(reference, text, w):
+        """The implementation's text holds a line beyond the requested width that no unbreakable word or margin forces: the
+        reference rendering of the same document at the same width (the transcribed renderer, for which the width theorems
+        are proved) keeps every line shorter."""
+        try:
+            ref_l = max(len(l) for l in reference.decode("utf-8").split("\n"))
+            worst = max(text.decode("utf-8").split("\n"), key=len)
+        except UnicodeDecodeError:
+            return None
+        if len(worst) > w + 2 and len(worst) > ref_l:
+            return ("width %d: a line of %d columns although the same document fits in lines of at most %d columns (reference "
+                    "rendering): %r" % (w, len(worst), ref_l, worst[:200]))
+        return None
 
     @staticmethod
     def too_long(text, w):
